@@ -76,6 +76,11 @@ func (g *Gateway) subscriptionHandler(w http.ResponseWriter, r *http.Request) {
 			recover()
 		}()
 		verifhook.At("sub.handler.deferEnter")
+		// whatever happens to the close frame (the client may be gone already):
+		// close all running handlers and the connection
+		defer subDict.CleanAll()
+		defer conn.Close()
+
 		// gracefully close connection
 		body := ws.NewCloseFrameBody(ws.StatusNormalClosure, "")
 		frame := ws.NewCloseFrame(body)
@@ -85,12 +90,6 @@ func (g *Gateway) subscriptionHandler(w http.ResponseWriter, r *http.Request) {
 		if _, err := conn.Write(body); err != nil {
 			return
 		}
-
-		// close conn
-		conn.Close()
-
-		// close all running handlers
-		subDict.CleanAll()
 	}()
 
 	for {
